@@ -29,7 +29,10 @@ TRUSTED = [
     "foreground executions are instantaneous, background refreshes complete at explicit `done` operations",
     "harness: virtual clock and patched datetime.now (harness/vtime.py), gating of background refresh tasks, canonicalisation (harness/decor14.py)",
     "always explicit early_ttl / soft_ttl: the default ttl*0.33 is a float product outside the model",
-    "storing condition = the facade default (store every successful result); protected=False (single-flight is C07)",
+    "the store step after a successful execution is scripted too: cfg mode=default uses the facade's default condition (store every "
+    "successful result), a plain ttl and no middleware; mode=script passes a user `condition` that turns down / raises on the results the "
+    "script flags, a callable `ttl` that raises on flagged results (failover, soft) and a middleware that refuses the SET of flagged values, "
+    "each with a Listed or an Unlisted exception; protected=False (single-flight is C07)",
 ]
 
 
@@ -232,6 +235,37 @@ def exhaustive_cases():
                             ops += [f"done a 0 {o}", "call a ok", "call a ok", "done a 0 ok"]
                         ops += ["call a ok", f"adv {ttl - 1}", f"call a {o}", "adv 1", f"call a {o}", "call a ok"]
                         out.append({"cfg": cfg, "ops": ops})
+    out += store_step_grid()
+    return out
+
+
+def store_step_grid():
+    """mode script: for every strategy, parameter combination and every way the store step can fail (condition / callable ttl /
+    backend.set x listed / unlisted) or turn the result down: the failure with nothing stored, with a young, a stale and an
+    expired stored result, each followed by a listed failure of the function (is the older result still what is stored?) and
+    by a success"""
+    out = []
+    for ttl in D.TTLS:
+        for d in ("fail", "soft", "early", "hit"):
+            for f in D.SCRIPT_EXTRA[d]:
+                if d in ("soft", "early"):
+                    variants = [(inner, 0, 0, bg) for inner in D.INNERS for bg in ((0, 1) if d == "early" else (0,))]
+                elif d == "hit":
+                    variants = [(0, hits, upd, bg) for hits in (1, 2) for upd in (0, 1, 2) for bg in (0, 1)]
+                else:
+                    variants = [(0, 0, 0, 0)]
+                for inner, hits, upd, bg in variants:
+                    cfg = {"decor": d, "ttl": ttl, "inner": inner, "hits": hits, "upd": upd, "bg": bg, "store": "plain",
+                           "mode": "script"}
+                    young = max(inner - 1, 1) if inner else 1
+                    stale = (inner + 1) if inner else ttl // 2
+                    ops = [f"call a {f}", "call a ok", f"adv {young}", f"call a {f}", "call a lis",
+                           f"adv {stale}", f"call a {f}", "call a lis", f"call a {f}"]
+                    if bg:
+                        ops += [f"done a 0 {f}", "call a lis", f"call a {f}", "done a 0 ok", f"done a 0 {f}"]
+                    ops += ["call a ok", "call a ok", f"call a {f}", "call a lis", "call a ok",
+                            f"adv {ttl}", f"call a {f}", "call a lis", "call a ok", f"call a {f}"]
+                    out.append({"cfg": cfg, "ops": ops})
     return out
 
 
@@ -248,6 +282,12 @@ def run(chk: Check) -> int:
         hs = D.enumerate_histories(alphabet, enum_len)
         enum_sizes[f"{cfg['decor']} bg={cfg['bg']} hits={cfg['hits']} upd={cfg['upd']}: |alphabet|={len(alphabet)}"] = len(hs)
         cases += [(f"enum:{cfg['decor']}:{i}", {"cfg": cfg, "ops": h}) for i, h in enumerate(hs)]
+    enum_len_s = chk.budget(4, 5)
+    for cfg, alphabet in D.ENUM_SCRIPT:
+        hs = D.enumerate_histories(alphabet, enum_len_s)
+        enum_sizes[f"{cfg['decor']} bg={cfg['bg']} hits={cfg['hits']} upd={cfg['upd']} mode=script (1..{enum_len_s} ops): "
+                   f"|alphabet|={len(alphabet)}"] = len(hs)
+        cases += [(f"enum-script:{cfg['decor']}:{i}", {"cfg": cfg, "ops": h}) for i, h in enumerate(hs)]
     decors = ["early", "soft", "fail", "hit", "early", "hit"]
     for i in range(n):
         cfg = D.gen_cfg(chk.rng, decors[i % len(decors)])
@@ -317,7 +357,10 @@ def run(chk: Check) -> int:
     chk.coverage.update({
         "evaluations": evaluations,
         "distinct_nontrivial": len(distinct),
-        "rule": "call histories (1..30 ops: call with scripted outcome ok/listed/unlisted, adv, done of a background refresh; one or two "
+        "rule": "call histories (1..30 ops: call with scripted outcome ok/listed/unlisted and — for the half of the configurations with "
+                "mode=script (user condition, callable ttl for failover/soft, SET-refusing middleware) — rej (the condition turns the result "
+                "down) and cL/cU/tL/tU/sL/sU (the function returns, then the condition / the callable ttl / backend.set raises a Listed / "
+                "Unlisted exception); adv; done of a background refresh with any of these outcomes; one or two "
                 "argument values) generated from VERIF_SEED over the grids ttl∈{2,10}s, early/soft∈{½,1,4}s, cache_hits∈{1,2,3}, "
                 "update_after∈{0,1,2}, background on/off, store set-up plain/purge-task/pickle; gaps aimed below / exactly at / between / "
                 "exactly at / beyond the inner and hard TTL measured from the latest store; preceded by the corpus and by a fixed "
@@ -325,15 +368,21 @@ def run(chk: Check) -> int:
                 "non-trivial iff it reached at least one interesting state (interesting_states_cases lists them with the number of cases: "
                 "call exactly at an inner/hard TTL, refresh started / in flight during a call / finishing after a later call / outliving "
                 "its lock, failing foreground or background refresh, stale value served on a listed exception, listed failure after hard "
-                "expiry, last allowed hit, execution after cache_hits serves, refresh at update_after, ...); distinct = distinct (cfg, ops)",
+                "expiry, last allowed hit, execution after cache_hits serves, refresh at update_after, a store step failing (by stage and by "
+                "exception class) with and without an older result stored, in a foreground / background refresh, a turned-down result and the "
+                "execution after it, a refused SET that deleted the hit counter while the older result stayed, ...); distinct = distinct (cfg, ops)",
         "samples": samples,
         "corpus_cases": ncorpus,
         "grid_cases": len(grid),
         "exhaustive": True,
         "exhaustive_note": f"enumerated completely: (1) every history of 1..{enum_len} operations (starting with a call) over a boundary alphabet "
                            "(calls ok/listed[/unlisted], gaps reaching ages exactly at / between / beyond the inner and hard TTL, completion of the "
-                           "oldest refresh ok/listed) for six fixed configurations (enumerated_histories gives the sizes); (2) every parameter "
-                           "combination of the property's grids with a fixed boundary-walking history (grid_cases). Longer histories and the other "
+                           "oldest refresh ok/listed) for six fixed configurations, and every history of 1..{enum_len_s} operations over six mode=script alphabets (calls whose "
+                           "store step fails in the condition / callable ttl / SET, listed and unlisted, turned-down results, listed failures, gaps, "
+                           "completions of a background refresh with those outcomes) (enumerated_histories gives the sizes); (2) every parameter "
+                           "combination of the property's grids with a fixed boundary-walking history, and every strategy x parameter combination x way "
+                           "the store step can fail (3 stages x listed/unlisted, or turned down) with nothing / a young / a stale / an expired result "
+                           "stored (grid_cases). Longer histories and the other "
                            "configurations are sampled",
         "enumerated_histories": enum_sizes,
         "cases_per_decorator": per_decor,
@@ -341,8 +390,10 @@ def run(chk: Check) -> int:
         "interesting_states_cases": dict(sorted(interesting.items())),
         "model_diffs_without_property_violation": diffs,
         "trusted_base": TRUSTED,
-        "partial": "not exhibited by the model/harness: foreground executions that take time, concurrent calls (C07), conditions other than the "
-                   "default, the float default early/soft ttl (ttl*0.33), non-dyadic TTLs, more than two argument values, histories > 30 ops. "
+        "partial": "not exhibited by the model/harness: foreground executions that take time, concurrent calls (C07), conditions that return an "
+                   "exception (with_exceptions / only_exceptions: storing a failure), time_condition, a callable ttl for early (evaluated before the "
+                   "execution, without the result) and for hit (unusable: the raw callable reaches backend.incr(expire=...)), store-step failures that "
+                   "leave the backend half-written, the float default early/soft ttl (ttl*0.33), non-dyadic TTLs, more than two argument values, histories > 30 ops. "
                    "D19 (early, background=False: a failing refresh propagates instead of answering from the store) is a recorded known finding; "
                    "the corresponding theorem carries the excluding hypothesis (early_answers_from_store_partial) and its negation is witnessed "
                    "(early_foreground_failure_propagates).",
@@ -355,7 +406,7 @@ def replay(chk: Check, path: str) -> int:
     c = json.loads(Path(path).read_text())
     case = {"cfg": c["cfg"], "ops": c["ops"]}
     events, answers, problems, seen, dm = judge(case)
-    print(D.case_line(case["cfg"]), "store=" + case["cfg"]["store"])
+    print(D.case_line(case["cfg"]), "store=" + case["cfg"]["store"], "mode=" + case["cfg"].get("mode", "default"))
     for e, a in zip(events, answers):
         print(f"t={e['t']:<5d} {e['op']:18s} impl={e['impl']:34s} {a}")
     for i, s, txt in problems:
